@@ -102,7 +102,10 @@ def _gen_options(rng: random.Random, grid: dict) -> dict:
                   "minimal_radius": rng.choice([0, 0, 0, 0.5, 1.0, 2.0])}
     ra = rng.choice([None, None, {}, {"vmin": None, "vmax": None}, {"adjust_values": True},
                      {"tolerance": 1e-3}, {"tolerance": 1e-2, "vmin": None},
-                     {"least_squares_params": {"max_nfev": 12}}])
+                     {"least_squares_params": {"max_nfev": 12}},
+                     {"least_squares_params": {"max_nfev": 3}},
+                     {"least_squares_params": {"xtol": 1e-2, "ftol": 1e-2}},
+                     {"least_squares_params": {"loss": "soft_l1"}, "vmin": None}])
     opts["refine_args"] = copy.deepcopy(ra)
     modes = 0
     if dim == 2 and grid["kind"] == "cart" and rng.random() < 0.25:
@@ -228,8 +231,9 @@ def _result_fingerprint(system: str, res) -> list:
              [[type(d).__name__, data_hash(d.data)] for d in tr.droplets]] for tr in res]
 
 
-def _build_call(case: dict):
-    """Return a function call(num_processes) building fresh inputs each time."""
+def _build_call(case: dict, share_inputs: bool = False):
+    """Return a function call(num_processes) building fresh inputs each time (or, with
+    `share_inputs`, passing the very same field/storage objects to every call)."""
     from pde import MemoryStorage
 
     import droplets
@@ -237,11 +241,14 @@ def _build_call(case: dict):
 
     system, opts = case["system"], dict(case["options"])
     fields = [scenes.render(f) for f in case["frames"]]
+    shared_storage = [MemoryStorage.from_fields(list(case["times"]), [f.copy() for f in fields])] \
+        if share_inputs and system in ("from_storage", "tracks_from_storage") else [None]
 
     if system == "locate":
         def call(n):
             kw = {k: copy.deepcopy(v) for k, v in opts.items()}
-            return locate_droplets(fields[0].copy(), refine=True, num_processes=n, **kw)
+            f0 = fields[0] if share_inputs else fields[0].copy()
+            return locate_droplets(f0, refine=True, num_processes=n, **kw)
     elif system == "refine":
         perturb = opts.pop("perturb", 0.0)
         shuffle_seed = opts.pop("shuffle_seed", 0)
@@ -259,17 +266,20 @@ def _build_call(case: dict):
         r.shuffle(cands)
 
         def call(n):
-            return refine_droplets(fields[0].copy(), [c.copy() for c in cands],
+            f0 = fields[0] if share_inputs else fields[0].copy()
+            return refine_droplets(f0, [c.copy() for c in cands],
                                    num_processes=n, **copy.deepcopy(ra))
     elif system == "from_storage":
         def call(n):
             kw = {k: copy.deepcopy(v) for k, v in opts.items()}
-            st = MemoryStorage.from_fields(list(case["times"]), [f.copy() for f in fields])
+            st = shared_storage[0] if share_inputs else MemoryStorage.from_fields(
+                list(case["times"]), [f.copy() for f in fields])
             return droplets.EmulsionTimeCourse.from_storage(st, num_processes=n,
                                                             progress=False, **kw)
     else:
         def call(n):
-            st = MemoryStorage.from_fields(list(case["times"]), [f.copy() for f in fields])
+            st = shared_storage[0] if share_inputs else MemoryStorage.from_fields(
+                list(case["times"]), [f.copy() for f in fields])
             return droplets.DropletTrackList.from_storage(
                 st, method=opts["method"], refine=opts["refine"], num_processes=n,
                 progress=False)
@@ -326,6 +336,17 @@ def _real_pool_crosscheck(case, call, fp0, system, V, cnt, log):
                            {"system": system, "pool": "real", "kind": _diff(fp0, fp).split(':')[0]}))
 
 
+def _make_canary(case):
+    from droplets.image_analysis import locate_droplets
+
+    field = scenes.render(case["frames"][0])
+
+    def canary():
+        return locate_droplets(field.copy(), refine=True)
+
+    return canary
+
+
 def _guarded(fn):
     try:
         return "ok", fn()
@@ -343,6 +364,12 @@ def execute(case: dict) -> Outcome:
     log.add("case", system=system, options=case["options"], nframes=len(case["frames"]))
     call = _build_call(case)
 
+    # canary: a fixed default-option analysis of the first frame, evaluated now and again after
+    # all other calls of this run — state leaking between calls must not change its answer
+    canary = _make_canary(case)
+    st_c, c0 = _guarded(canary)
+    canary_fp0 = _result_fingerprint("locate", c0) if st_c == "ok" else None
+
     st, base = _guarded(lambda: call(1))
     if st != "ok":
         cnt.inc("probe.serial_raised")
@@ -353,12 +380,27 @@ def execute(case: dict) -> Outcome:
     log.add("serial", fp=fp0)
     cnt.inc("serial_calls")
     cnt.inc(f"system.{system}")
-    # O2: run-to-run determinism of the serial path
+    # O2: run-to-run determinism of the serial path, on fresh copies of the input and on the
+    # very same input objects (a cache keyed by object identity must not change the answer)
     st, again = _guarded(lambda: call(1))
     if st != "ok" or _result_fingerprint(system, again) != fp0:
         violations.append(Violation(
             "C15.O2", "repeating the serial analysis on the same input gave a different result",
             {"system": system, "path": "serial"}))
+    same = _build_call(case, share_inputs=True)
+    fps = []
+    for _ in range(3):
+        st, r = _guarded(lambda: same(1))
+        fps.append(_result_fingerprint(system, r) if st == "ok" else ("raised", getattr(r, "text", str(r))))
+    if fps[1] != fps[0] or fps[2] != fps[0]:
+        violations.append(Violation(
+            "C15.O2", "repeating the serial analysis on the very same input objects gave a "
+            "different result", {"system": system, "path": "serial_same_objects"}))
+    elif system != "refine" and fps[0] != fp0:
+        # (refine_droplets may legitimately refine the caller's candidates in place)
+        violations.append(Violation(
+            "C15.O2", "analysing the same input objects gave a result different from analysing "
+            "fresh copies of them", {"system": system, "path": "serial_same_vs_copy"}))
 
     inter_keys = []
     nontrivial = False
@@ -430,6 +472,14 @@ def execute(case: dict) -> Outcome:
             violations.append(Violation(
                 "C15.O2", "repeating the parallel analysis under the same schedule gave a "
                 "different result", {"system": system, "path": "parallel"}))
+    if canary_fp0 is not None:
+        st_c, c1 = _guarded(canary)
+        cnt.inc("canary_repeats")
+        if st_c != "ok" or _result_fingerprint("locate", c1) != canary_fp0:
+            violations.append(Violation(
+                "C15.O2", "repeating a default analysis of the same input after other analyses "
+                "had run in between gave a different result (state leaks between calls)",
+                {"system": system, "path": "canary"}))
     if case.get("real_pool") and not violations:
         _real_pool_crosscheck(case, call, fp0, system, violations, cnt, log)
     key = data_hash(np.frombuffer(repr(inter_keys).encode(), dtype=np.uint8))
